@@ -353,10 +353,119 @@ func init() {
 			}
 		}, nil
 	}
+	// keys that carry no usable key material: refused with an error (the genuine, unmodified token; fresh and used Evidence)
+	Scenarios["c02.unusable-keys"] = func() (choice.Scenario, func() any) {
+		seeds := map[string]*c02Seed{}
+		for _, alg := range fixtures.AlgNames {
+			seeds[alg] = c02MakeSeed(alg, 1, 0)
+		}
+		keys := degenerateKeys()
+		return func(c *choice.Ctx) {
+			alg := fixtures.AlgNames[c.Choose("alg", len(fixtures.AlgNames))]
+			s := seeds[alg]
+			ki := c.Choose("key", len(keys))
+			usedFirst := c.Choose("evidence-verified-the-token-before", 2) == 1
+			ev, err := psatoken.DecodeEvidenceFromCOSE(append([]byte{}, s.tok...))
+			if err != nil {
+				return
+			}
+			if usedFirst && ev.Verify(s.key.Pub) != nil {
+				return
+			}
+			c02stats.StateStr(fmt.Sprint("unusable", alg, ki, usedFirst))
+			c02stats.Trans.Add(1)
+			if ev.Verify(keys[ki]) == nil {
+				c.Failf(fmt.Sprintf("C02:verifies-with-unusable-key:%s:%T", alg, keys[ki]), "Verify(%#v) succeeded on a genuine %s token", keys[ki], alg)
+			}
+			if ev.Verify(s.key.Pub) != nil {
+				c.Failf("C02:genuine-token-stops-verifying:"+alg, "after Verify with an unusable key")
+			}
+		}, nil
+	}
+	// an Evidence is a plain struct: what is done to a by-value copy of it must not change what the original verifies
+	Scenarios["c02.evidence-copies"] = func() (choice.Scenario, func() any) {
+		seeds := map[string]*c02Seed{}
+		for _, alg := range fixtures.AlgNames {
+			seeds[alg] = c02MakeSeed(alg, 1, 0)
+		}
+		other := c02MakeSeed("ES256", 2, 3)
+		other2 := c02MakeSeed("EdDSA", 2, 1)
+		pubs := allPubKeys()
+		return func(c *choice.Ctx) {
+			alg := fixtures.AlgNames[c.Choose("alg", len(fixtures.AlgNames))]
+			s := seeds[alg]
+			signing := c.Choose("original-is", 2) == 1 // 0: decoded the token, 1: signed it
+			var ev *psatoken.Evidence
+			if signing {
+				x, _ := realise(s.abs)
+				ev = &psatoken.Evidence{}
+				_ = ev.SetClaims(x)
+				if _, err := ev.ValidateAndSign(s.key.Signer()); err != nil {
+					return
+				}
+			} else {
+				var err error
+				if ev, err = psatoken.DecodeEvidenceFromCOSE(append([]byte{}, s.tok...)); err != nil {
+					return
+				}
+			}
+			if c.Choose("verified-before-copy", 2) == 1 {
+				_ = ev.Verify(s.key.Pub)
+			}
+			_, _, pl0, sig0, _, _ := ev.VerifMessage()
+			pl0, sig0 = append([]byte{}, pl0...), append([]byte{}, sig0...)
+			g0 := getterVector(ev.Claims)
+			cp := *ev
+			what := ""
+			switch c.Choose("done-to-the-copy", 6) {
+			case 0:
+				what = "UnmarshalCOSE(token of another key)"
+				_ = cp.UnmarshalCOSE(append([]byte{}, other.tok...))
+			case 1:
+				what = "UnmarshalCOSE(token of another algorithm)"
+				_ = cp.UnmarshalCOSE(append([]byte{}, other2.tok...))
+			case 2:
+				what = "UnmarshalCOSE(garbage)"
+				_ = cp.UnmarshalCOSE([]byte{0xd2, 0x84, 0x40})
+			case 3:
+				what = "UnmarshalCOSE(flipped token)+Verify"
+				m := append([]byte{}, s.tok...)
+				m[len(m)-1] ^= 1
+				_ = cp.UnmarshalCOSE(m)
+				_ = cp.Verify(s.key.Pub)
+			case 4:
+				what = "SetClaims+Sign(other key)"
+				y, _ := realise(other.abs)
+				_ = cp.SetClaims(y)
+				_, _ = cp.Sign(other.key.Signer())
+			case 5:
+				what = "Verify(wrong key)"
+				_ = cp.Verify(other.key.Pub)
+			}
+			c02stats.StateStr(fmt.Sprint("copies", alg, signing, what))
+			c02stats.Trans.Add(2)
+			if err := ev.Verify(s.key.Pub); err != nil {
+				c.Failf("C02:copy-changes-original:stops-verifying:"+what, "%s on a by-value copy: the original no longer verifies with the signer's key: %v", what, err)
+			}
+			for _, pk := range pubs {
+				if pk.file != s.key.File && ev.Verify(pk.pub) == nil {
+					c.Failf("C02:copy-changes-original:verifies-with-other-key:"+what, "%s on a by-value copy: the original now verifies with %s", what, pk.name)
+				}
+			}
+			if _, _, pl, sig, _, _ := ev.VerifMessage(); !bytes.Equal(pl, pl0) || !bytes.Equal(sig, sig0) {
+				c.Failf("C02:copy-changes-original:envelope:"+what, "%s on a by-value copy changed the envelope the original holds", what)
+			}
+			if g := getterVector(ev.Claims); g != g0 && what != "SetClaims+Sign(other key)" {
+				c.Failf("C02:copy-changes-original:claims:"+what, "claims of the original changed")
+			}
+		}, nil
+	}
 	Checks["C02"] = func(r *evid.Run) {
 		registerStandardExt()
 		c02stats = NewStats()
 		dl := deadline(r, 55*time.Second, 20*time.Minute)
+		exploreChoice(r, "c02.unusable-keys", -1, dl)
+		exploreChoice(r, "c02.evidence-copies", -1, dl)
 		if !thorough(r) {
 			for _, alg := range fixtures.AlgNames {
 				exploreChoice(r, "c02.flip."+alg, 2, dl) // claims-set 0: all flips, truncations, substitutions; others: only the default mutation
